@@ -14,5 +14,6 @@ INVARIANT TypeOK
 INVARIANT SequentiallyValid
 INVARIANT ImplEqualsEd
 INVARIANT TargetReached
+INVARIANT StructureConsistent
 INVARIANT CorruptRaises
 CHECK_DEADLOCK FALSE
